@@ -123,6 +123,8 @@ type CPSession struct {
 	QERs   []*QERSpec
 	// after an agent restart the CP may still believe in it
 	Stale bool
+	// Checked: per-session oracle already evaluated (C07)
+	Checked bool
 }
 
 func (s *CPSession) PDR(id uint16) *PDRSpec {
